@@ -196,6 +196,26 @@ def w3_line_hook(c, st):
     orig = z3.Select(c.eng.heap(st, "original_mnemonic"), item.t)
     c.eng.goal(st, "header-line-starts-with-the-original-mnemonic", z3.PrefixOf(orig, line.t), "safety", None,
                note="duplicates and blanks are written under the mnemonic the file gave them")
+    # full layout (C03/C11/C12): the line is exactly
+    #   ljust(original mnemonic, left) "." str(unit) blanks(middle - len(unit) - len(rhs)) str(rhs) " : " str(other)
+    # where rhs/other are value/descr in the order the table gives for the ORIGINAL mnemonic (and for nothing else: not the
+    # unit, not the section), and left/middle are the widths get_section_widths returned for this section
+    sw = st.env.get("section_widths")
+    if not (isinstance(sw, VDict) and isinstance(sw.d.get("left_width"), VInt) and isinstance(sw.d.get("middle_width"), VInt)):
+        c.eng.goal(st, "header-line-layout", z3.BoolVal(False), "safety", None)
+        return
+    L, Mw = sw.d["left_width"].t, sw.d["middle_width"].t
+    hp = lambda f: z3.Select(c.eng.heap(st, f), item.t)
+    unit_s = str_of(hp("unit"))
+    vfirst = ordsel(orig)
+    rhs_s = z3.If(vfirst, str_of(hp("value")), str_of(hp("descr")))
+    other_s = z3.If(vfirst, str_of(hp("descr")), str_of(hp("value")))
+    fill = z3.Function("py_fill", S, I, S)
+    want = z3.Concat(orig, fill(z3.StringVal(" "), L - z3.Length(orig)), z3.StringVal("."), unit_s,
+                     blanks(Mw - z3.Length(unit_s) - z3.Length(rhs_s)), rhs_s, z3.StringVal(" : "), other_s)
+    c.eng.goal(st, "header-line-layout", line.t == want, "safety", None,
+               note="mnemonic padded to the section's left width, period, unit, blank run up to the section's middle width, then value and "
+                    "description in the order the table gives for the ORIGINAL mnemonic, separated by ' : '")
 
 
 def make_w3(section, field, anchor_name, with_std):
